@@ -40,6 +40,12 @@ func allValidUtf8(v *Val) bool {
 }
 
 func main() {
+	if os.Getenv("VERIF_MODE") == "canyprobe" {
+		// child process of mode cany (any.go): one self-containing value, outcome printed as one JSON line
+		schema = loadSchema(os.Getenv("VERIF_SCHEMA"))
+		runCAnyProbe()
+		return
+	}
 	cfg := hx.ParseFlags()
 	schema = loadSchema(os.Getenv("VERIF_SCHEMA"))
 	collectDefaultNumbers()
